@@ -13,7 +13,7 @@
 //	          doc/queries.md parses to the query it was rendered from; malformed pieces at every
 //	          position are rejected;
 //	eval      every structured query of <= 3 (4) clauses over a catalogue tuned to the population,
-//	          parsed by the real parser and evaluated by the real RepoCache on populations of 7-9
+//	          parsed by the real parser and evaluated by the real RepoCache on populations of 6-8
 //	          bugs built through the real cache (several replicas for equal Lamport times), at
 //	          several stages (live cache, reopened cache, after a pull, after further edits),
 //	          against a reference evaluator over bugs read back from git.
@@ -249,7 +249,7 @@ func (r *run) record(name string, pr partResult, compared bool, t0 time.Time) {
 
 // evalPopulations builds every population and evaluates the catalogue at every stage.
 func (r *run) evalPopulations() {
-	for pi, spec := range popSpecs(r.tier) {
+	for pi, spec := range popSpecs() {
 		if r.onlyPop != "" && spec.Name != r.onlyPop {
 			continue
 		}
@@ -385,7 +385,7 @@ func Main(args []string) {
 		"distinct_nontrivial":           r.inputs,
 		"exhaustive":                    *only == "" && !r.harness && !deadlineHit,
 		"internal_deadline_hit":         deadlineHit,
-		"rule": "states = distinct inputs: strings (alphabet, tokens), structured queries (roundtrip, malformed), (query, population stage) pairs (eval); " +
+		"rule": "states = inputs, distinct within each part: strings (alphabet, tokens), structured queries (roundtrip, malformed), (query, population stage) pairs (eval); " +
 			"transitions = executions of query.Parse / RepoCacheBug.Query on them; traces_validated_against_impl = executions whose result was compared with the " +
 			"reference (denotation of the clauses; reference evaluator over bugs read back from git); the alphabet strings are only required not to crash",
 		"parts":             r.parts,
